@@ -15,6 +15,7 @@ From Tibc Require Export Harness.Net Harness.AppNet.
 
 Inductive c16_step :=
 | SNet (o : nop unit) (ob : nobs)
+| SNetL (o : nop unit) (ok : bool)       (* history before the re-import: only the verdict is compared *)
 | SReimport (i : nat) (dump : list (bytes * bytes)).
 Definition SNetP (p : nop unit * nobs) : c16_step := SNet (fst p) (snd p).
 
@@ -23,6 +24,7 @@ Definition SNetP (p : nop unit * nobs) : c16_step := SNet (fst p) (snd p).
     (classes, tokens, balances: other modules' genesis) is kept *)
 Inductive c16_astep :=
 | SApp (o : anop) (ob : aobs)
+| SAppL (o : anop) (ok : bool)
 | SAReimport (i : nat) (dump : list (bytes * bytes)) (l : ledger).
 Definition SAppP (p : anop * aobs) : c16_astep := SApp (fst p) (snd p).
 
@@ -30,8 +32,13 @@ Definition drop_traces (a : app_state) : app_state :=
   mkApp (mkNftState (ns_classes (a_nft a)) (ns_tokens (a_nft a)) [])
         (mkMtState (ms_classes (a_mt a)) (ms_mts (a_mt a)) (ms_supply (a_mt a)) (ms_bal (a_mt a)) []).
 
+(** the imported store is given as its difference from the original one *)
+Definition patch (orig : store) (lost : list bytes) (set_ : store) : store :=
+  filter (fun kv : bytes * bytes => negb (existsb (beq (fst kv)) lost) && negb (existsb (fun kv' : bytes * bytes => beq (fst kv) (fst kv')) set_)) orig ++ set_.
+
 Inductive c16_case :=
 | C16Store (orig : store) (exported : bool) (imp : store)
+| C16StoreD (orig : store) (exported : bool) (lost : list bytes) (changed_or_new : store)
 | C16Apps (orig imp : store)
 | C16Net (names : list bytes) (steps : list c16_step)
 | C16App (names : list bytes) (nft_escrow mt_escrow : bytes) (steps : list c16_astep).
@@ -48,6 +55,9 @@ Fixpoint c16_net_ok (n : mnet) (l : list c16_step) : bool :=
   | SNet o ob :: rest =>
       let '(n', r) := mstep n o in
       step_agrees n' r (nop_chain o) ob && c16_net_ok n' rest
+  | SNetL o ok :: rest =>
+      let '(n', r) := mstep n o in
+      Bool.eqb (match r with Some _ => true | None => false end) ok && c16_net_ok n' rest
   | SReimport i dump :: rest =>
       match nth_error n i with
       | Some ci =>
@@ -67,6 +77,9 @@ Fixpoint c16_app_ok (ne me : bytes) (n : anet) (l : list c16_astep) : bool :=
   | SApp o ob :: rest =>
       let '(n', r) := anstep ne me n o in
       astep_agrees n' r (anop_chain o) ob && c16_app_ok ne me n' rest
+  | SAppL o ok :: rest =>
+      let '(n', r) := anstep ne me n o in
+      Bool.eqb (match r with Some _ => true | None => false end) ok && c16_app_ok ne me n' rest
   | SAReimport i dump led :: rest =>
       match nth_error n i with
       | Some ci =>
@@ -84,6 +97,7 @@ Fixpoint c16_app_ok (ne me : bytes) (n : anet) (l : list c16_astep) : bool :=
 Definition c16_case_ok (c : c16_case) : bool :=
   match c with
   | C16Store orig exported imp => c16_store_ok orig exported imp
+  | C16StoreD orig exported lost cn => c16_store_ok orig exported (if exported then patch orig lost cn else [])
   | C16Apps orig imp => dump_eqb (app_reimport orig) imp
   | C16Net names steps => c16_net_ok (map mk_chain names) steps
   | C16App names ne me steps => c16_app_ok ne me (map mk_achain names) steps
@@ -98,6 +112,9 @@ Fixpoint c16_net_where (n : mnet) (k : N) (l : list c16_step) : option N :=
   | SNet o ob :: rest =>
       let '(n', r) := mstep n o in
       if step_agrees n' r (nop_chain o) ob then c16_net_where n' (k + 1) rest else Some k
+  | SNetL o ok :: rest =>
+      let '(n', r) := mstep n o in
+      if Bool.eqb (match r with Some _ => true | None => false end) ok then c16_net_where n' (k + 1) rest else Some k
   | SReimport i dump :: rest =>
       match nth_error n i with
       | Some ci =>
